@@ -4,9 +4,10 @@
 The small pieces C11 needs: the RFC 4648 encoder by groups of three (`rfcEncode`), a strict RFC 4648 decoder
 (`rfcDecode`: alphabet only, length a multiple of four, `=` padding only in the last group, canonical zero
 bits) — both written from the RFC, on naturals.  `SurfProofs/Lemmas/KittyB64.lean` proves
-`rfcDecode (rfcEncode d) = some d`.  These can be replaced by C14's `SurfModel.Base64.rfcEncode` and its
-theorems (C14 also proves that the streaming encoder of `src/encoder.rs`, with its 3-byte carry, computes
-`rfcEncode`; here that step is covered by the byte-exact correspondence of `draw`).
+`rfcDecode (rfcEncode d) = some d`; `SurfProofs/Lemmas/KittyB64Link.lean` proves that these are C14's:
+`encTab` is the crate's `BASE64_ENCODE` table, `rfcEncode` = `SurfModel.Base64.rfcEncode` on every input, and
+`rfcDecode t = some d ↔ t = SurfModel.Base64.rfcEncode d`.  (Kept as a separate import-free file so that the
+protocol specification `SurfModel/KittySpec.lean` does not depend on the model of the crate's codec.)
 -/
 namespace SurfModel.KittyB64
 
